@@ -103,6 +103,7 @@ func normalise(in Input) Input {
 	}
 	if in.DeadlineMs == 0 {
 		in.Deaf = false
+		in.Cancelled = false
 	}
 	for i := range in.Nodes {
 		nd := &in.Nodes[i]
@@ -144,6 +145,9 @@ type Input struct {
 	// submit, with a deadline: the scripted nodes ignore the request context in every method (a
 	// submitter need not honour it); otherwise they honour it the way the HTTP client does
 	Deaf bool `json:"deaf,omitempty"`
+	// submit, with a deadline: the caller's context carries no deadline but is cancelled by the caller
+	// at that instant (ctx.Deadline() says "none"; everything else is the same, so the Coq case is too)
+	Cancelled bool `json:"cancelled,omitempty"`
 }
 
 type Call struct {
@@ -762,7 +766,13 @@ func runSubmit(t *testing.T, in Input) Obs {
 			if in.DeadlineMs > 0 {
 				// the caller's own deadline, counted from the observed call
 				var ccancel context.CancelFunc
-				cctx, ccancel = context.WithTimeout(ctx, time.Duration(in.DeadlineMs)*time.Millisecond)
+				if in.Cancelled {
+					cctx, ccancel = context.WithCancel(ctx)
+					tm := time.AfterFunc(time.Duration(in.DeadlineMs)*time.Millisecond, ccancel)
+					defer tm.Stop()
+				} else {
+					cctx, ccancel = context.WithTimeout(ctx, time.Duration(in.DeadlineMs)*time.Millisecond)
+				}
 				defer ccancel()
 			}
 			err, returned = within(cctx)
@@ -1642,6 +1652,8 @@ func genDeadline(r *Rand, in *Input) {
 			}
 		}
 	}
+	// the caller cancels at that instant instead of having set a deadline
+	in.Cancelled = r.Chance(1, 5)
 }
 
 // genVersions scripts the nodes' version endpoints (helpers.go serviceInfo asks every node that has
@@ -1851,6 +1863,9 @@ func inputTags(in Input) []string {
 	if in.Deaf {
 		add("nodes-ignore-context")
 	}
+	if in.Cancelled {
+		add("caller-cancels")
+	}
 	if in.Len == 0 {
 		add("empty-payload")
 	}
@@ -2028,6 +2043,9 @@ func TestC08(t *testing.T) {
 			}
 			if in.Deaf {
 				col.Count("nodes-ignore-context")
+			}
+			if in.Cancelled {
+				col.Count("caller-cancels")
 			}
 		}
 		if obs[i].Panic {
